@@ -70,10 +70,12 @@ PoliciesFull == { Pol("min","lf","lit","plain"), Pol("min","cr","oct","esc"), Po
                   Pol("cmt","lf","lit","esc"), Pol("cmt","cr","oct","plain"), Pol("cmt","crlf","cont","esc"),
                   Pol("cmt","lf","hex","plain"), Pol("cmt","cr","hexws","esc"),
                   Pol("min","lf","octmix","plain"), Pol("one","cr","octmin","esc"), Pol("all","crlf","octmix","esc"), Pol("cmt","lf","octmin","plain"),
-                  Pol("min","lf","contraw","plain"), Pol("one","crlf","contraw","esc"), Pol("all","cr","contraw","plain") }
+                  Pol("min","lf","contraw","plain"), Pol("one","crlf","contraw","esc"), Pol("all","cr","contraw","plain"),
+                  Pol("cmt2","lf","lit","plain"), Pol("cmt2","cr","hex","esc"), Pol("cmt2","crlf","oct","plain") }
 PoliciesSmall == { Pol("min","lf","lit","plain"), Pol("one","cr","oct","esc"), Pol("all","crlf","cont","plain"),
                    Pol("cmt","lf","hex","esc"), Pol("cmt","cr","hexws","plain"), Pol("min","crlf","hexws","esc"),
-                   Pol("min","lf","octmix","plain"), Pol("one","lf","octmin","plain"), Pol("one","lf","contraw","plain") }
+                   Pol("min","lf","octmix","plain"), Pol("one","lf","octmin","plain"), Pol("one","lf","contraw","plain"),
+                   Pol("cmt2","lf","lit","plain") }
 
 PoliciesOne == { Pol("one","lf","lit","plain") }
 PoliciesWs == { Pol("min","lf","lit","plain"), Pol("one","cr","hex","esc"), Pol("all","crlf","lit","plain"),
